@@ -3,6 +3,7 @@ pub mod c07_12_13;
 pub mod c06_08_16;
 pub mod c14_15;
 pub mod c05;
+pub mod c10_11;
 
 use crate::alpha::*;
 use crate::report::*;
@@ -11,6 +12,9 @@ use crate::run_e1;
 const E1_RULE: &str = "every non-empty subset (size <= K) of each lattice / generic-pool alphabet, for every dimensionality, boundary kind and box of the menu, built by the real API; distinct = distinct combinatorial shape (per cell: set of non-negligible oracle faces and vertex count); non-trivial = at least one cell of positive measure";
 
 pub fn run(prop: &str, tier: &str) -> i32 {
+    if prop == "C11PART" {
+        return c10_11::c11_part(tier);
+    }
     let mut run = Run::new(prop, tier);
     run.assumptions.push("inputs outside the enumerated alphabets are not covered".to_string());
     run.assumptions.push("tolerances of DESIGN.md section 1.5".to_string());
@@ -84,6 +88,17 @@ pub fn run(prop: &str, tier: &str) -> i32 {
                 run.explore(&states, c05::eval_c05, |s| s.to_json());
             }
         }
+        "C10" | "C10DBG" => {
+            if prop == "C10DBG" {
+                run.property = "C10".to_string();
+                run.known = load_known_findings("C10");
+            }
+            run.assumptions.push(format!("this run: build kind = {} (the check runs a debug-assertions build and a release build)", c05::build_kind()));
+            c10_11::run_c10(&mut run);
+        }
+        "C11" => {
+            c10_11::run_c11(&mut run);
+        }
         "C14" => {
             run.rule = format!("{}; x all 2^n masks (n <= 3) x {{without faces, with faces (3D)}}; recording integrals implemented by this downstream crate (monomials of degree <= 2, face triangles)", E1_RULE);
             run_e1(&mut run, &[1, 2, 3], &[false, true], 99, c14_15::eval_c14);
@@ -109,6 +124,27 @@ pub fn replay(path: &str) -> i32 {
     let check = get("check").unwrap_or_default();
     let prop = get("property").unwrap_or_default();
     let clause = get("clause").unwrap_or_default();
+    if check == "c10" {
+        return c10_11::replay_tuple(&text);
+    }
+    if check == "c10-grid" {
+        let bx = get("box").and_then(|b| box_by_name(&b));
+        let dim = get("dim").and_then(|d| d.parse::<usize>().ok());
+        let per = get("periodic").map(|p| p == "true");
+        if let (Some(bx), Some(dim), Some(per)) = (bx, dim, per) {
+            let e = c10_11::eval_grid_map(&(bx, dim, per));
+            for i in &e.issues {
+                println!("ISSUE clause={} case={}\n   {}", i.clause, i.case, i.detail);
+            }
+            return if e.issues.is_empty() { 0 } else { 1 };
+        }
+        eprintln!("cannot parse grid-map replay {}", path);
+        return 2;
+    }
+    if check == "c11" {
+        println!("C11 replays are comparisons between builds: run ./check C11 quick");
+        return 2;
+    }
     let Some(st) = State::from_replay(&text) else {
         eprintln!("cannot parse state in {}", path);
         return 2;
@@ -132,6 +168,7 @@ pub fn replay(path: &str) -> i32 {
             }
         }
         "c05" => c05::eval_c05(&st),
+        "c10-duals" => c10_11::eval_dual_orientation(&st),
         "c14" => c14_15::eval_c14(&st),
         "c15" => c14_15::eval_c15(&st),
         "c07" => c07_12_13::eval_c07_with(&st, 5),
